@@ -104,6 +104,8 @@ def _client_kwargs(world, kw):
     for k, v in (kw or {}).items():
         if k == "serde":
             out[k] = make_serde(v)
+        elif k in ("serializer", "deserializer"):
+            out[k] = _userserde.FUNCS[v["$fn"]] if isinstance(v, dict) and "$fn" in v else None
         elif k == "socket_keepalive":
             out[k] = _base.KeepaliveOpts(**v) if v else None
         else:
